@@ -592,7 +592,7 @@ pub fn prop() -> Prop<HostileCase> {
             "hostile generators never contain the control prefix or a well-formed SET/DEL other than the designated prefix commands",
         ],
         needs_shim: false,
-        budget: |t| t.pick(3200, 40000),
+        budget: |t| t.pick(6400, 40000),
         shards: |_| 16,
         strategy,
         exec,
